@@ -281,6 +281,47 @@ def member_path_obligations(ctx, rep, rule):
             key=f"{rule}|getfspath", nontrivial=n > 0)
 
 
+
+def member_date_obligations(ctx, rep, rule):
+    """The date and time fields of an archive member are content: tools write 1980-00-00 or an hour of 24.  time.mktime() normalises
+    such fields; the datetime / date / time constructors validate them and raise ValueError - which handler selection takes for 'no
+    such object'.  A validating constructor fed from `date_time` needs a ValueError guard."""
+    prog = ctx.prog
+    mod = prog.modules.get("pygopherd.handlers.ZIP")
+    if mod is None:
+        rep.fail(rule, "pygopherd.handlers.ZIP", detail="archive module not found")
+        return
+    from ..structure import catches, enclosing_tries
+
+    n, found = 0, []
+    funcs = list(mod.functions.values()) + [m for c in mod.classes.values() for m in c.methods.values()]
+    for f in funcs:
+        dt_names = {"date_time"}
+        for a in ast.walk(f.node):  # locals fed from date_time
+            if isinstance(a, ast.Assign) and any("date_time" in norm(x) for x in ast.walk(a.value) if isinstance(x, (ast.Attribute, ast.Name))):
+                dt_names |= {t.id for t in a.targets if isinstance(t, ast.Name)}
+        for c in ast.walk(f.node):
+            if not isinstance(c, ast.Call):
+                continue
+            d = dotted(c.func) or ""
+            uses = any((isinstance(x, ast.Attribute) and x.attr == "date_time") or (isinstance(x, ast.Name) and x.id in dt_names and x.id != "date_time")
+                       for a in list(c.args) + [k.value for k in c.keywords] for x in ast.walk(a))
+            if not uses:
+                continue
+            n += 1
+            if d.split(".")[-1] in ("datetime", "date", "time") and d.split(".")[0] in ("datetime", "date", "time", "dt") and d != "time.time":
+                guarded = any(catches(h, "ValueError") for tr in enclosing_tries(f.node, c) for h in tr.handlers)
+                if not guarded:
+                    found.append((f, c))
+    for f, c in found:
+        rep.add(rule, f"{f.qualname}: {norm(c)[:60]}", False, ctx.where(f, c),
+                "a validating date constructor is fed the member's stored date fields without a ValueError guard: a member dated 1980-00-00 (or 24:00) "
+                "makes stat() raise, handler selection reads that as 'does not exist', and the member drops out of listings the extracted tree would show",
+                key=f"{rule}|{f.qualname}")
+    if not found:
+        rep.ok(rule, f"stored member dates are converted by normalising calls only [{n} uses of date_time]", mod.relpath, "", key=f"{rule}|none")
+
+
 def check(ctx, rep):
     prog = ctx.prog
     eff = Effects(prog, ctx.resolver)
@@ -296,6 +337,9 @@ def check(ctx, rep):
     rep.rule("R16k", "every description of an item from the file system is given the VFS the handler works on (no fall-back to the real file system)", floor=3)
     rep.rule("R16l", "member data and metadata are read under the name the index gives, never under the request path (links are resolved and names "
              "transcoded in the index)", floor=2)
+    rep.rule("R16o", "the stored date fields of a member (content: 1980-00-00 occurs) are converted by calls that normalise (time.mktime), or a "
+             "validating constructor is guarded for ValueError", floor=1)
+    member_date_obligations(ctx, rep, "R16o")
     rep.rule("R16n", "the member path of a selector is what follows the archive's own selector, taken off once at the front (evaluated on "
              "selectors in which the archive's name recurs)", floor=1)
     member_path_obligations(ctx, rep, "R16n")
